@@ -235,7 +235,7 @@ def m_cases(tier):
         for eff in ("None", "Extensive", "Intensive"):
             cs.append(comp_case(kind, True, True, True, eff))
         cs.append(comp_case(kind, True, True, False, "None"))
-        if tier == "thorough":
+        if True:  # every known / unknown combination is cheap enough for the quick tier
             for eff in ("None", "Extensive", "Intensive"):
                 cs.append(comp_case(kind, False, True, True, eff))
                 cs.append(comp_case(kind, True, False, True, eff))
